@@ -294,6 +294,9 @@ def check_big(ctx, seed, size_kb):
 
 
 def replay(witness, ctx):
+    if witness.get("fn") == "union-docs":
+        check_union_documents(ctx)
+        return
     if witness.get("fn") == "big":
         check_big(ctx, witness["seed"], witness["size_kb"])
         return
@@ -337,8 +340,20 @@ def run_handlers_for(ctx, model, style, loaded, obj, cfg, writer, seed, encoding
         STR_DECODE[0] = "utf-8"
 
 
+def check_union_documents(ctx):
+    """Hand-written documents for models with unions of classes (vf/props/union_models.py): prefixes declared at
+    different depths below the union element; every handler and source kind must give the same object."""
+    from vf.props import union_models as U
+
+    for i, doc in enumerate(U.DOCS):
+        ctx.feature("hand:union-of-classes-documents")
+        check_handlers(ctx, doc.encode("utf-8"), U.Holder, True, True, {"fn": "union-docs", "index": i, "doc": doc}, f"union-doc-{i}")
+
+
 def run_shard(ctx):
     rng = ctx.rng
+    if ctx.shard == 0:
+        check_union_documents(ctx)
     n_models = ctx.per_shard(ctx.pick(2200, 50000))
     min_d = MIN_DISTINCT[ctx.tier] // ctx.nshards + 1
     for i in range(ctx.pick(2, 12)):
